@@ -640,7 +640,8 @@ def callOp (c : Cfg) (s : State) (t : Tid) (op : Op) : Option State :=
   | .dtor => if c.mode ≠ Mode.pages then none else some (s.setTh t { th with kind := .dtor, pc := .dIdx })
   | .bdtor order => if c.mode ≠ Mode.pages then none else some (s.setTh t { th with kind := .bdtor, pc := .bdNext, todo := order })
   | .inject o =>
-    if isLive c s o then none else some { s with held := s.held ++ [o], obtained := s.obtained + 1, injected := s.injected + 1 }
+    if c.mode = Mode.pages ∨ isLive c s o = true then none
+    else some { s with held := s.held ++ [o], obtained := s.obtained + 1, injected := s.injected + 1 }
   | .pop =>
     match c.mode with
     | .poolAuto => some (startAlloc c s t { th with kind := .pop } 1 .top)
@@ -680,5 +681,19 @@ inductive Step (c : Cfg) : State → State → Prop
 def Quiescent (c : Cfg) (s : State) : Prop := ∀ t, t < c.nthreads → (s.th t).pc = .idle
 
 def quiescentB (c : Cfg) (s : State) : Bool := (List.range c.nthreads).all (fun t => (s.th t).pc == .idle)
+
+
+/-- quiescent shape of the queue (the assumed C01 `bq_inv` at quiescence), executable form: checked by the
+replay driver at every quiescent point; it is the hypothesis `QShape` of the destructor theorem -/
+def qshapeB (c : Cfg) (s : State) : Bool :=
+  decide (0 < c.cap) && decide (s.popIdx ≤ s.pushIdx) && decide (s.pushIdx ≤ s.popIdx + c.cap) && s.slots.length == c.cap &&
+  (List.range c.cap).all (fun d =>
+    let i := s.popIdx + d
+    match s.slots[i % c.cap]? with
+    | none => false
+    | some sl =>
+      sl.owner == none &&
+      (if i < s.pushIdx then sl.ver == expVer c.cap i .pop && sl.val.isSome
+       else sl.ver == expVer c.cap i .push && sl.val == none))
 
 end Babylon.Pages
